@@ -248,7 +248,134 @@ func TestDeleteCallerIdentity(t *testing.T) {
 	vkit.Exhaustive("delete-caller-identity-matrix", true)
 }
 
+// ClaimCase: another client claims a name that has a holder, through every claim path, for
+// every lifetime of the holder. A holder that never expires (ExpiresAt 0: created through
+// the repository / management side) or expires in the future keeps the name.
+type ClaimCase struct {
+	Via      string `json:"claim_via"`       // wire | handler | repo
+	Lifetime string `json:"holder_lifetime"` // never | future | past
+	Status   string `json:"holder_status"`   // active | inactive
+}
+
+func runClaimCase(c ClaimCase) (key, detail string) {
+	srv, err := miniserver.New(miniserver.Options{NoSecurityGate: true})
+	if err != nil {
+		return "C19/harness/claim-setup-failed", err.Error()
+	}
+	defer srv.Close()
+	ctx := context.Background()
+	owner, err := loginNew(srv, "10.2.1.1:4001")
+	if err != nil {
+		return "C19/harness/claim-setup-failed", err.Error()
+	}
+	other, err := loginNew(srv, "10.2.1.2:4002")
+	if err != nil {
+		return "C19/harness/claim-setup-failed", err.Error()
+	}
+	const name = "shop.tunnox.net"
+	mp, err := srv.Domains.CreateMapping(ctx, owner.ClientID, "shop", "tunnox.net", "10.0.0.1", 8080)
+	if err != nil {
+		return "C19/harness/claim-setup-failed", err.Error()
+	}
+	switch c.Lifetime {
+	case "future":
+		mp.ExpiresAt = time.Now().Unix() + 100000
+	case "past":
+		mp.ExpiresAt = time.Now().Unix() - 1000
+	}
+	if c.Status == "inactive" {
+		mp.Status = repos.HTTPDomainMappingStatusInactive
+	}
+	if c.Lifetime != "never" || c.Status == "inactive" {
+		if err := srv.Domains.UpdateMapping(ctx, mp); err != nil {
+			return "C19/harness/claim-setup-failed", err.Error()
+		}
+	}
+	body := `{"target_url":"http://10.6.6.6:6666","subdomain":"shop","base_domain":"tunnox.net"}`
+	accepted, how := false, ""
+	switch c.Via {
+	case "wire":
+		chk, _ := wireCommand(other, packet.HTTPDomainCheckSubdomain, `{"subdomain":"shop","base_domain":"tunnox.net"}`)
+		rep, hung := wireCommand(other, packet.HTTPDomainCreate, body)
+		accepted = anySuccess(rep)
+		how = fmt.Sprintf("HTTPDomainCheckSubdomain (replies %v) + HTTPDomainCreate (replies %v, hung %v) on the connection of client %d", chk, rep, hung, other.ClientID)
+	case "handler":
+		ad := appserver.NewHTTPDomainRepositoryAdapter(srv.Domains)
+		resp, herr := command.NewHTTPDomainCreateHandler(ad, ad).Handle(&command.CommandContext{ConnectionID: "conn-h", ClientID: other.ClientID, RequestBody: body})
+		accepted = herr == nil && resp != nil && resp.Success
+		how = fmt.Sprintf("HTTPDomainCreateHandler for client %d", other.ClientID)
+	case "repo":
+		_, cerr := srv.Domains.CreateMapping(ctx, other.ClientID, "shop", "tunnox.net", "10.6.6.6", 6666)
+		accepted = cerr == nil
+		how = fmt.Sprintf("CreateMapping by client %d = %v", other.ClientID, cerr)
+	}
+	got, gerr := srv.Domains.LookupByDomain(ctx, name)
+	sess := &sessDouble{offline: map[int64]bool{}}
+	mod := domainproxy.NewDomainProxyModule(srv.Ctx, &httpservice.DomainProxyModuleConfig{Enabled: true, BaseDomains: []string{"tunnox.net"}, DefaultScheme: "http", CommandModeThreshold: 1 << 20, RequestTimeout: 2 * time.Second})
+	mod.SetDependencies(&httpservice.ModuleDependencies{SessionMgr: sess, CloudControl: srv.Cloud, Storage: srv.Storage, HTTPDomainMappingRepo: srv.Domains})
+	req := httptest.NewRequest("GET", "http://placeholder/x", nil)
+	req.Host = name
+	mod.ServeHTTP(httptest.NewRecorder(), req)
+	if c.Lifetime == "past" {
+		// an expired holder does not route; whether its name can be reclaimed before the cleanup
+		// job ran is the implementation's choice — but the name must end with ONE owner
+		if accepted && (gerr != nil || got.ClientID != other.ClientID) {
+			return "C19/claim/accepted-claim-does-not-resolve", fmt.Sprintf("%s accepted; lookup = %+v %v", how, got, gerr)
+		}
+		if !accepted && len(sess.calls) != 0 {
+			return "C19/proxy/inactive-or-expired-mapping-routed", fmt.Sprintf("expired holder routed: %+v", sess.calls)
+		}
+		return "", ""
+	}
+	switch {
+	case accepted:
+		return "C19/claim/live-holder-evicted-by-competing-claim", fmt.Sprintf("%s was accepted although %s of client %d holds %s (expires: %s, status %s); the name now resolves to %+v", how, mp.ID, owner.ClientID, name, c.Lifetime, c.Status, got)
+	case gerr != nil || got.ID != mp.ID || got.ClientID != owner.ClientID:
+		return "C19/claim/holder-gone-after-refused-claim", fmt.Sprintf("%s; LookupByDomain = %+v %v, holder is %s of client %d", how, got, gerr, mp.ID, owner.ClientID)
+	}
+	if c.Status == "active" {
+		if len(sess.calls) != 1 || sess.calls[0].client != owner.ClientID || !strings.Contains(sess.calls[0].url, "10.0.0.1:8080") {
+			return "C19/claim/holder-no-longer-routed-after-refused-claim", fmt.Sprintf("%s; request routed to %+v", how, sess.calls)
+		}
+	} else if len(sess.calls) != 0 {
+		return "C19/proxy/inactive-or-expired-mapping-routed", fmt.Sprintf("inactive holder routed: %+v", sess.calls)
+	}
+	return "", ""
+}
+
+// TestClaimOfHeldName enumerates claim path x holder lifetime x holder status.
+func TestClaimOfHeldName(t *testing.T) {
+	idx := 0
+	for _, via := range []string{"wire", "handler", "repo"} {
+		for _, life := range []string{"never", "future", "past"} {
+			for _, status := range []string{"active", "inactive"} {
+				idx++
+				if !vkit.Mine(idx) {
+					continue
+				}
+				c := ClaimCase{Via: via, Lifetime: life, Status: status}
+				key, detail := runClaimCase(c)
+				class := "claim-of-held-name/" + via + "/holder-expires-" + life
+				if key != "" {
+					vkit.Violation(t, key, detail, c)
+					vkit.Case("known:"+class, true, fmt.Sprintf("%+v", c))
+					continue
+				}
+				vkit.Case(class, true, fmt.Sprintf("%+v", c))
+			}
+		}
+	}
+	vkit.Exhaustive("claim-of-held-name-matrix", true)
+}
+
 func replayIdentity(t *testing.T, path string) {
+	var cc ClaimCase
+	if _, err := vkit.LoadReplay(path, &cc); err == nil && cc.Via != "" {
+		if key, detail := runClaimCase(cc); key != "" {
+			vkit.Violation(t, key, detail, cc)
+		}
+		return
+	}
 	var c IdentityCase
 	if _, err := vkit.LoadReplay(path, &c); err != nil {
 		t.Fatal(err)
